@@ -619,6 +619,9 @@ class _Run:
             if name == "_int_mm" and (len(a.labels) != 2 or len(b.labels) != 2):
                 raise TypeErr(f"torch._int_mm needs 2-D operands, got {a} and {b}")
             if name == "_int_mm":
+                if "unitstride" in getattr(a, "strides", ()):
+                    raise TypeErr("torch._int_mm is given a first operand that may be a single row with a stray leading stride (the transpose of a column): contiguous() returns it as it is - a dimension of size one never makes a "
+                                  "tensor non-contiguous - and the CPU kernel takes that stride for the leading dimension: it reads past the row (platform table, probed: strides (1, 1) on shape (1, 32)) without contiguous() being of any help")
                 for z_, nm_ in ((a, "first"), (b, "second")):
                     if "stride0" in getattr(z_, "strides", ()) or getattr(z_, "stride0", False):
                         raise TypeErr(f"torch._int_mm is given a {nm_} operand that may have a zero stride (an expanded tensor) without contiguous(): the kernel reads it as a dense matrix and returns garbage (platform table)")
@@ -660,12 +663,17 @@ class _Run:
         # has the layout / dtype asked for, detach): only a copy into a new allocation (clone) realigns it
         if isinstance(recv, T) and isinstance(r, T) and r is not recv and "unaligned" in (getattr(recv, "strides", None) or ()) and id(recv) not in self.aligned and name != "clone" and r.kind == recv.kind:
             r.strides = set(getattr(r, "strides", None) or ()) | {"unaligned"}
+        # "unitstride": if an extent is one, the stride along it is arbitrary - and contiguous() returns such a tensor as it is (a dimension of size one never
+        # makes a tensor non-contiguous).  Only what recomputes the strides (reshape / view / flatten, a clone into the contiguous format) normalises it.
+        if isinstance(recv, T) and isinstance(r, T) and r is not recv and "unitstride" in (getattr(recv, "strides", None) or ()) and r.kind == recv.kind \
+                and name not in ("reshape", "view", "flatten") and not (name == "clone" and "memory_format" in kw):
+            r.strides = set(getattr(r, "strides", None) or ()) | {"unitstride"}
         # clone() keeps the strides of a dense tensor (a transposed operand stays transposed); it materialises an expanded one
         if isinstance(recv, T) and isinstance(r, T) and r is not recv and name == "clone" and "lastdim" in (getattr(recv, "strides", None) or ()) and "memory_format" not in kw:
             r.strides = set(getattr(r, "strides", None) or ()) | {"lastdim"}
         # stride hazards (a tensor that may have a zero stride / may not be contiguous on its last dimension) survive views only
         if isinstance(recv, T) and isinstance(r, T) and r is not recv and getattr(recv, "strides", None) and name in ("t", "view", "reshape", "detach", "unsqueeze", "flatten", "expand", "expand_as", "broadcast_to", "squeeze", "transpose", "permute"):
-            r.strides = (set(recv.strides) - ({"unaligned"} if id(recv) in self.aligned else set())) | set(getattr(r, "strides", ()))
+            r.strides = (set(recv.strides) - ({"unaligned"} if id(recv) in self.aligned else set()) - ({"unitstride"} if name in ("reshape", "view", "flatten") else set())) | set(getattr(r, "strides", ()))
         return r
 
     def _method(self, recv, name, args, kw, node):
